@@ -353,7 +353,6 @@ VARIANTS_OF = {
     "C15": {"quick": ["default", "be:idn"], "thorough": ["default", "be:idn", "be:idnkit"]},
     "C07": {"quick": ["default", "underscore", "be:idn"], "thorough": ["default", "underscore", "be:idn", "be:idnkit"]},
     "C16": {"quick": ["default", "extra", "be:idnkit+extra"], "thorough": ["default", "extra", "be:idnkit+extra", "be:idn+extra"]},
-    "C06": {"quick": ["default", "extra", "uchar"], "thorough": ["default", "extra", "all3", "uchar"]},
     "C17": {"quick": ["default", "rfc20", "rfc5322", "underscore", "rebuilt"],
             "thorough": ["default", "rfc20", "rfc5322", "underscore", "rfc20+rfc5322", "rfc20+underscore", "rfc5322+underscore", "all3", "rebuilt"]},
 }
@@ -883,7 +882,10 @@ def c08(ctx):
             hs.append("i;r%d;k%d;s;" % (mode, k1) + ";".join("e" + a for a in hadd) + ";k%d;s;" % k2 + ";".join("e" + a for a in hadd) + ";t0;s;e%s;t1;s;e%s;f" % (hadd[0], hadd[0]))
     check_histories(ctx, "policy-reconfigured", hs)
     # addresses on listed TLDs in several letter cases: expected class from the table
-    lc_addrs = [b"a@mail.RU", b"A@IANA.ORG", b"a@x.Museum", b"a@x.BIZ", b"a@b.com", b"a@b.ru", b"a@nic.aero", b"a@x.arpa", b"a@x.biz", b"a@x.edu", b"a@x.Info", b"a@x.COM"]
+    lc_addrs = [b"a@mail.RU", b"A@IANA.ORG", b"a@x.Museum", b"a@x.BIZ", b"a@b.com", b"a@b.ru", b"a@nic.aero", b"a@x.arpa", b"a@x.biz", b"a@x.edu", b"a@x.Info", b"a@x.COM",
+                # second-level names that merely end in / contain a reserved word: the class is the TLD's, and the TLD's bit governs them
+                b"a@counterexample.com", b"a@forexample.net", b"a@my-example.org", b"a@xexample.com", b"a@a.b.counterexample.com", b"a@examples.com", b"a@example.com.ru",
+                b"a@test.com", b"a@localhost.com", b"a@invalid.org", b"a@onion.net", b"a@example.biz", b"a@contest.ru", b"a@x-example.com"]
     lcs = ctx.spec(["sT %s" % hx(x.rsplit(b".", 1)[-1]) for x in lc_addrs])
     listed_cls = {hx(x): sl.split(" ")[1] for x, sl in zip(lc_addrs, lcs) if sl.split(" ")[1] not in ("-26",)}
     addrs = list(dict.fromkeys(addrs + lc_addrs))
@@ -939,6 +941,24 @@ def c09(ctx):
                 continue
             if (f[1] == "8") != (spm[d] == "sS 1"):
                 ctx.S("address on a reserved domain not classified 'special' (or a non-reserved one classified so)", op="E %d 1 %s" % (m, hx(b"a@" + d)), input=repr(d), impl=cl, spec=spm[d])
+    # (added) 'special' is said of the DOMAIN only: whatever the local part is (every byte value inside a quoted string, bare, escaped), class 8
+    # comes out exactly for reserved domains - with TLD checking on, and never with it off
+    lps = [b'"a' + bytes([b_]) + b'b"' for b_ in range(1, 256) if b_ != 0x40] + [b"a" + bytes([b_]) + b"b" for b_ in range(1, 256) if b_ != 0x40] + \
+          [b'"a\\' + bytes([b_]) + b'"' for b_ in (1, 9, 10, 13, 32, 34, 92, 127, 128, 255)] + [b'"\n"', b'"\r\n "', b'"\r"', b'"a\n\nb"', b'"\n\r"', b"a", b'""', b'"a"."b\n"']
+    ldoms = [b"b.com", b"example.com", b"x.test", b"mail.example.org", b"counterexample.com", b"[192.0.2.1]", b"localhost", b"b.zz"]
+    lds = ctx.spec(["sS %s" % hx(d) for d in ldoms])
+    for m in MODES:
+        for t in (1, 0):
+            ops = ["E %d %d %s" % (m, t, hx(l_ + b"@" + d)) for d in ldoms for l_ in lps]
+            cl_ = ctx.K("special-any-local%d" % m, "default", ops, nontrivial=lambda op, ln: True)
+            k = 0
+            for d, rs in zip(ldoms, lds):
+                for l_ in lps:
+                    f = fields(cl_[k]); k += 1
+                    if "FAULT" in cl_[k - 1]:
+                        continue
+                    if f[1] == "8" and (t == 0 or rs != "sS 1"):
+                        ctx.S("an address is classified 'special' although its domain is not a reserved name%s" % (" (TLD checking is off)" if t == 0 else ""), op=ops[k - 1], local=repr(l_), domain=d.decode(), impl=cl_[k - 1])
     # (added) long domains: the reserved suffix at the end of 250..255-octet names, in the ASCII modes and in 6531
     tails = [b"example.com", b"EXAMPLE.NET", b"a.test", b"x.localhost", b"example.comm", b"a.tests", b"example.co", b"b.com", b"a.invalid"]
     longd = [gen.long_host(n - len(t) - 1, tld=b"zz")[:-3] + b"." + t for n in range(249, 261) for t in tails]
@@ -2056,7 +2076,7 @@ def c06(ctx):
         if p.returncode == 77:
             ctx.S("valgrind memcheck reports an error (uninitialised read, invalid access or leak)", op="memcheck slice of %d ops" % len(ops), report=p.stderr.decode(errors="replace")[:2000])
 RULES["C06"] = "distinct ops executed under ASan+UBSan+LSan with exact-size heap inputs and a poisoned heap eav_t: every byte value at every structural position, 1 KiB and 64 KiB inputs of 18 shapes x 7 placements, corpora of the other properties, call histories with injected IDN faults; callgrind instruction counts for doubling lengths"
-VARIANTS_OF["C06"] = {"quick": ["default", "extra", "be:idnkit+extra", "x:plain", "x:gcov"], "thorough": ["default", "extra", "all3", "be:idnkit+extra", "be:idn+extra", "x:plain", "x:gcov"]}
+VARIANTS_OF["C06"] = {"quick": ["default", "extra", "uchar", "be:idnkit+extra", "x:plain", "x:gcov"], "thorough": ["default", "extra", "all3", "uchar", "be:idnkit+extra", "be:idn+extra", "x:plain", "x:gcov"]}
 TRUSTED_EXTRA["C06"] = ["what the compiled C actually reads and writes is a runtime fact: ASan/UBSan/LSan on every correspondence stream, valgrind memcheck and callgrind carry that half; the model-level no-fault statements are about the model"]
 
 
